@@ -4052,15 +4052,20 @@ impl Collection {
                     // return the same document repeatedly and the duplicates
                     // would consume the caller's `limit`. First-occurrence
                     // order is preserved, matching the other branches.
+                    //
+                    // The scan is never cut at `limit`: it walks the index in
+                    // *key* order (and each posting list in insertion order),
+                    // which says nothing about id order, so the first `limit`
+                    // ids it meets are not the smallest (or largest) matching
+                    // ids the caller pages by. Like the composite branches,
+                    // return the full match set and let the caller sort and
+                    // trim it.
                     let mut rt: UniqueVec<DocumentId> =
                         UniqueVec::with_capacity(Self::reserve_hint(limit));
                     index.try_range_query_ids(filter, order.is_descending(), |ids| {
                         for id in ids {
                             if candidates.is_none_or(|s| s.contains(id)) {
                                 rt.push(*id);
-                                if limit > 0 && rt.len() >= limit {
-                                    return false;
-                                }
                             }
                         }
                         true
